@@ -102,6 +102,17 @@ pub async fn restore(
     while let Some(entry) = stitch.next().await {
         task.set_name(format!("Restore {}", entry.apath));
         let path = destination.join(&entry.apath[1..]);
+        if restores_through_symlink(destination, &entry.apath) {
+            // For example, an interrupted backup recorded `/a` as a symlink and is stitched
+            // onto an older version in which `/a` was a directory with children.
+            monitor.error(Error::InvalidMetadata {
+                details: format!(
+                    "Not restoring {:?} because a parent directory was restored as a symlink",
+                    entry.apath()
+                ),
+            });
+            continue;
+        }
         match entry.kind() {
             Kind::Dir => {
                 monitor.count(Counter::Dirs, 1);
@@ -151,6 +162,24 @@ pub async fn restore(
     }
     apply_deferrals(&deferrals, monitor.clone())?;
     Ok(())
+}
+
+/// True if one of the directories between the destination and this entry is a symlink, so that
+/// restoring the entry would follow it and write somewhere outside the destination.
+fn restores_through_symlink(destination: &Path, apath: &Apath) -> bool {
+    let mut dir = destination.to_path_buf();
+    let mut parts = apath[1..].split('/').peekable();
+    while let Some(part) = parts.next() {
+        if parts.peek().is_none() {
+            // The entry itself may well be a symlink.
+            break;
+        }
+        dir.push(part);
+        if std::fs::symlink_metadata(&dir).is_ok_and(|m| m.file_type().is_symlink()) {
+            return true;
+        }
+    }
+    false
 }
 
 fn restore_dir(apath: &Apath, restore_path: &Path, options: &RestoreOptions) -> io::Result<()> {
